@@ -9,6 +9,7 @@ type Rule func(ctx *core.Ctx, r *core.Report)
 // Registry maps property ids to their rule sets.
 var Registry = map[string]Rule{
 	"C03": C03,
+	"C04": C04,
 	"C05": C05,
 	"C06": C06,
 	"C07": C07,
@@ -18,8 +19,10 @@ var Registry = map[string]Rule{
 	"C12": C12,
 	"C13": C13,
 	"C14": C14,
+	"C15": C15,
 	"C16": C16,
 	"C17": C17,
+	"C19": C19,
 	"C20": C20,
 }
 
